@@ -11,9 +11,9 @@ import (
 	"strings"
 
 	"github.com/whoisnian/glb/util/netutil"
-	"github.com/whoisnian/glb/zzverif/vsched"
-	"github.com/whoisnian/glb/zzverif/vsync"
 	"verif/engine/sdrive"
+	"verif/engine/shim/vsched"
+	"verif/engine/shim/vsync"
 	"verif/engine/vcommon"
 )
 
